@@ -117,6 +117,9 @@ func init() {
 		What:   "whole generated text on skeleton whole: an interface-level ':style arg' shapes every function of ITS interface and no function of another converter interface; a method-level :skip reaches its own function only (see C11WholeFile)",
 		Bounds: "skeleton whole", Assumes: []string{aT, aSlots}})
 
+	reg(&HarnessSpec{Prop: "C14", Name: "C14TypeErrors", Replay: "native",
+		What:    "real front half on skeleton dup, whose converter interface declares a method twice (go/types reports the error and leaves the duplicate out; another, unrelated type error stands elsewhere in the file): the run is rejected with a positioned diagnostic instead of succeeding with a method missing",
+		Bounds:  "skeleton dup, 2 slot choices", Assumes: []string{aT, aSlots}})
 	for _, pr := range []string{"C14", "C06"} {
 		reg(&HarnessSpec{Prop: pr, Name: "C14NotationBytes", Replay: "native",
 			What:    "real parseNotationInComments (reNotation/reLiteral run by a leftmost-first backtracking matcher over the byte vector, strings.Fields, NewIdentMatcher, NewNameMatcher, NewFieldConverter, NewLiteralSetter, isValidIdentifier) on ONE method-level notation line ':<notation><sep><args>' for the type-free notations literal/map/conv/style/match/recv/reverse/case:off and an unknown one, with the ARGUMENT TEXT an arbitrary byte string: no Go run-time panic; too few arguments are rejected with a diagnostic; otherwise exactly the white-space separated arguments are recorded (destination / source / function / literal text = rest of the line); :style/:match accept exactly the documented values; :recv accepts identifiers only; unknown notations are ignored",
